@@ -334,3 +334,39 @@ Section CapHistory.
   Lemma initial_within_cap cf : (size (o_defs (initial_outcome cf)) <= chan_cap)%nat.
   Proof. unfold initial_outcome. cbn [o_defs]. rewrite (map_size_empty (M:=gmap Z)). lia. Qed.
 End CapHistory.
+
+(* C18 on the wire: the one-step laws for one byte-level call of Plugin.Outcome *)
+Section WireTsv.
+  Context (h : Z -> chandef -> list Z) (check : list Z -> option (gmap Z Z)).
+  Local Notation dec := (dec_or_initial).
+  Local Notation aosb b := (map (obs_of_bytes check) (bv_obs b)).
+
+  Theorem tsv_never_goes_back_on_the_wire cf b p t0 i0 :
+    check_typed check -> bvalid h check cf b ->
+    o_aggs (dec cf (bv_prev b)) !! p = Some (STsv t0 i0) -> p ∈ referenced_pairs (o_defs (dec cf (bv_next b))) ->
+    exists v, o_aggs (dec cf (bv_next b)) !! p = Some v /\
+      (v = STsv t0 i0 \/ (exists t1 i1, v = STsv t1 i1 /\ t0 < t1) \/ match v with STsv _ _ => False | _ => True end).
+  Proof.
+    intros Hck Hv Hp Hr. destruct (abs_valid h check cf b Hck Hv) as [Hseq Hstep]. cbn [abs_event ev_seq ev_aos ev_prev ev_next] in Hseq, Hstep.
+    exact (tsv_never_goes_back h cf _ _ _ _ p t0 i0 Hseq Hstep Hp Hr).
+  Qed.
+
+  Theorem tsv_carried_when_aggregation_fails_on_the_wire cf b sid agg t0 i0 fn e rr obs :
+    check_typed check -> bvalid h check cf b ->
+    accept_observations (c_has_pred cf) (aosb b) = Ok (rr, obs) ->
+    o_aggs (dec cf (bv_prev b)) !! (sid, agg) = Some (STsv t0 i0) -> (sid, agg) ∈ referenced_pairs (o_defs (dec cf (bv_next b))) ->
+    agg_fun agg = Some fn -> fn (stream_obs obs sid) (c_f cf) = Err e ->
+    o_aggs (dec cf (bv_next b)) !! (sid, agg) = Some (STsv t0 i0).
+  Proof.
+    intros Hck Hv Ha Hp Hr Hf He. destruct (abs_valid h check cf b Hck Hv) as [Hseq Hstep]. cbn [abs_event ev_seq ev_aos ev_prev ev_next] in Hseq, Hstep.
+    exact (tsv_carried_when_aggregation_fails h cf _ _ _ _ sid agg t0 i0 fn e rr obs Hseq Hstep Ha Hp Hr Hf He).
+  Qed.
+
+  Theorem unreferenced_dropped_on_the_wire cf b p v :
+    check_typed check -> bvalid h check cf b ->
+    o_aggs (dec cf (bv_next b)) !! p = Some v -> p ∈ referenced_pairs (o_defs (dec cf (bv_next b))).
+  Proof.
+    intros Hck Hv Hp. destruct (abs_valid h check cf b Hck Hv) as [Hseq Hstep]. cbn [abs_event ev_seq ev_aos ev_prev ev_next] in Hseq, Hstep.
+    exact (unreferenced_dropped h cf _ _ _ _ p v Hseq Hstep Hp).
+  Qed.
+End WireTsv.
